@@ -476,9 +476,19 @@ def _complementary(fn, tv, vv, later_is_val):
     def is_empty(e):
         return isinstance(e, ast.Call) and call_name(e) in ("np.asarray", "np.array", "np.empty", "np.zeros") and e.args and (
             (isinstance(e.args[0], (ast.List, ast.Tuple)) and not e.args[0].elts) or is_const(e.args[0], 0))
+    def def_stmt(name):
+        """the single assignment statement binding a local to a setdiff1d(…) call, or None"""
+        sts = [n for n in walk_no_nested_defs(fn) if isinstance(n, ast.Assign) and len(n.targets) == 1 and isinstance(n.targets[0], ast.Name) and n.targets[0].id == name]
+        if len(sts) == 1 and isinstance(sts[0].value, ast.Call) and call_name(sts[0].value) == "np.setdiff1d":
+            return sts[0]
+        return None
     for a, b, an, bn in ((tv, vv, "train", "val"), (vv, tv, "val", "train")):
         if is_empty(a) and unparse(b) == "self.indices":
             return True, f"{an} = ∅, {bn} = all indices"
+        hoisted = None
+        if isinstance(a, ast.Name) and def_stmt(a.id) is not None:
+            hoisted = def_stmt(a.id)            # `rest = np.setdiff1d(self.indices, sel)` computed earlier and stored later
+            a = hoisted.value
         if isinstance(a, ast.Call) and call_name(a) == "np.setdiff1d" and len(a.args) >= 2:
             if unparse(a.args[0]) != "self.indices":
                 return False, f"{an} = setdiff1d({unparse(a.args[0])}, …) is not a complement within self.indices"
@@ -486,6 +496,14 @@ def _complementary(fn, tv, vv, later_is_val):
             same = other == unparse(b) or other == f"self.{bn}_indices"
             if not same:
                 return False, f"{an} is the complement of `{other}` but {bn} is `{unparse(b)}`"
+            if hoisted is not None and isinstance(a.args[1], ast.Name):
+                # the complement was taken of the version of `other` that was live at the hoisted statement: a rebinding between that statement and the
+                # stores (a truncation, typically) makes the two sets no longer complementary — the dropped items are in neither
+                later = [n for n in walk_no_nested_defs(fn) if isinstance(n, ast.Assign) and any(isinstance(t, ast.Name) and t.id == other for t in n.targets)
+                         and n.lineno > hoisted.lineno]
+                if later:
+                    return False, (f"{an} = `{hoisted.targets[0].id}` is the complement of `{other}` as it was at line {hoisted.lineno}, but `{other}` is rebound afterwards "
+                                   f"(`{unparse(later[0])[:50]}`): whatever the rebinding removes is in neither set — those patterns are never visited")
             if not _closure_subset_of_indices(fn, b):
                 return None, f"`{unparse(b)}` is not visibly a sub-selection of self.indices"
             return True, f"{an} = indices \\ {bn}; {bn} ⊆ indices"
